@@ -149,9 +149,10 @@ pub struct World {
     pub rolled_back_to: Option<u64>,        // rollback_to_epoch succeeded for this epoch in this call
     pub invalidated_after: Option<u64>,     // invalidate_messages_after_epoch called with this epoch
     pub invalidated_processed_after: Option<u64>,
-    pub retry_marked: Seq<EventId>,
+    pub retry_marked: Seq<EventId>,         // ids handed to mark_processed_message_retryable since the last retry query
+    pub last_invalidated: Seq<EventId>,     // ids returned by invalidate_messages_after_epoch
+    pub last_refetch: Seq<EventId>,         // ids returned by find_failed_messages_for_retry
     pub notified: Option<RollbackNote>,
-    pub reprocessed: bool,                  // process_message re-entered (after rollback)
     pub exported_for: Seq<(GroupId, u64)>,  // exporter_secret exports performed (group, epoch)
 }
 pub struct RollbackNote { pub group: GroupId, pub target_epoch: u64, pub new_head: EventId, pub invalidated: Seq<EventId>, pub refetch: Seq<EventId> }
@@ -206,7 +207,9 @@ pub trait MdkStorageProvider {
                 r is Err ==> *final(w) == *old(w);
     fn find_message_by_event_id(&self, mls_group_id: &GroupId, event_id: &EventId, Tracked(w): Tracked<&mut World>) -> (r: Result<Option<Message>, MessageError>)
         ensures *final(w) == *old(w),
-                r is Ok ==> r->Ok_0 == (if old(w).messages.contains_key((*mls_group_id, *event_id)) { Some(old(w).messages[(*mls_group_id, *event_id)]) } else { None::<Message> });
+                r is Ok ==> r->Ok_0 == (if old(w).messages.contains_key((*mls_group_id, *event_id)) { Some(old(w).messages[(*mls_group_id, *event_id)]) } else { None::<Message> }),
+                // primary key: the record stored under (group, id) carries that key
+                r is Ok && r->Ok_0 is Some ==> r->Ok_0->Some_0.mls_group_id == *mls_group_id && r->Ok_0->Some_0.id == *event_id;
     fn save_processed_message(&self, pm: ProcessedMessage, Tracked(w): Tracked<&mut World>) -> (r: Result<(), MessageError>)
         ensures r is Ok ==> *final(w) == (World { processed: old(w).processed.insert(pm.wrapper_event_id, pm), ..*old(w) }),
                 r is Err ==> *final(w) == *old(w);
@@ -218,16 +221,25 @@ pub trait MdkStorageProvider {
     // `processed`), the call itself is recorded so that order conditions can be stated
     fn invalidate_messages_after_epoch(&self, group_id: &GroupId, epoch: u64, Tracked(w): Tracked<&mut World>) -> (r: Result<Vec<EventId>, MessageError>)
         requires old(w).rolled_back_to == Some(epoch), //@L[error_recovery.invalidate_only_after_rollback_same_epoch|C01,C02|callsite-requires]
-        ensures *final(w) == (World { messages: final(w).messages, invalidated_after: Some(epoch), ..*old(w) });
+        ensures *final(w) == (World { messages: final(w).messages, invalidated_after: Some(epoch), last_invalidated: final(w).last_invalidated, ..*old(w) }),
+                r is Ok ==> final(w).last_invalidated == r->Ok_0@,
+                r is Err ==> final(w).last_invalidated == Seq::<EventId>::empty();
     fn invalidate_processed_messages_after_epoch(&self, group_id: &GroupId, epoch: u64, Tracked(w): Tracked<&mut World>) -> (r: Result<Vec<EventId>, MessageError>)
         requires old(w).rolled_back_to == Some(epoch), //@L[error_recovery.invalidate_processed_only_after_rollback_same_epoch|C01,C02|callsite-requires]
         ensures *final(w) == (World { processed: final(w).processed, invalidated_processed_after: Some(epoch), ..*old(w) });
     fn find_failed_messages_for_retry(&self, group_id: &GroupId, Tracked(w): Tracked<&mut World>) -> (r: Result<Vec<EventId>, MessageError>)
-        ensures *final(w) == *old(w);
+        ensures *final(w) == (World { last_refetch: final(w).last_refetch, retry_marked: Seq::<EventId>::empty(), ..*old(w) }),
+                r is Ok ==> final(w).last_refetch == r->Ok_0@,
+                r is Err ==> final(w).last_refetch == Seq::<EventId>::empty();
     fn mark_processed_message_retryable(&self, event_id: &EventId, Tracked(w): Tracked<&mut World>) -> (r: Result<(), MessageError>)
-        requires old(w).rolled_back_to is Some && old(w).notified is None, //@L[error_recovery.retryable_marked_after_rollback_before_notify|C01,C02|callsite-requires]
+        requires old(w).rolled_back_to is Some, //@L[error_recovery.retryable_marked_only_after_rollback|C01,C02|callsite-requires]
         ensures *final(w) == (World { processed: final(w).processed, retry_marked: old(w).retry_marked.push(*event_id), ..*old(w) });
 }
+
+// Result<Vec<EventId>, MessageError>::unwrap_or_default (std: Ok(v) => v, Err => empty vec)
+pub assume_specification<T: Default, E> [Result::<T, E>::unwrap_or_default] (r: Result<T, E>) -> (o: T)
+    ensures r is Ok ==> o == r->Ok_0,
+            r is Err ==> call_ensures(T::default, (), o);
 
 // =====================================================================================
 // OpenMLS (assumed). MlsGroup is opaque; view() is its abstract state.
@@ -508,6 +520,20 @@ pub struct CallbackHandle { _p: u8 }
 
 //@extract id=ty.RollbackInfo file=crates/mdk-core/src/callback.rs item="struct RollbackInfo"
 //@end
+
+impl CallbackHandle {
+    // MdkCallback::on_rollback through Arc<dyn MdkCallback> (assumed: the application callback has
+    // no access to the library's state). Call-site obligations: the notification is sent after the
+    // rollback and both invalidations, and carries exactly the ids computed in this call.
+    #[verifier::external_body]
+    pub fn on_rollback(&self, info: &RollbackInfo, Tracked(w): Tracked<&mut World>)
+        requires
+            old(w).rolled_back_to == Some(info.target_epoch) && old(w).invalidated_after == Some(info.target_epoch) && old(w).invalidated_processed_after == Some(info.target_epoch), //@L[error_recovery.notify_after_rollback_and_invalidation|C01|callsite-requires]
+            info.invalidated_messages@ == old(w).last_invalidated && info.messages_needing_refetch@ == old(w).last_refetch, //@L[error_recovery.notify_carries_ids|C01,C02|callsite-requires]
+            old(w).retry_marked =~= old(w).last_refetch, //@L[error_recovery.retryable_marked_before_notify|C01,C02|callsite-requires]
+        ensures *final(w) == (World { notified: Some(RollbackNote { group: info.group_id, target_epoch: info.target_epoch, new_head: info.new_head_event, invalidated: info.invalidated_messages@, refetch: info.messages_needing_refetch@ }), ..*old(w) }),
+    { unimplemented!() }
+}
 
 pub struct MDK<Storage: MdkStorageProvider> {
     pub provider: MdkProvider<Storage>,
